@@ -127,6 +127,10 @@ class Gen:
         self.types.append({"name": "T%d" % (base + 9), "kind": "struct", "cover_case": True, "fields": [{"ident": "f0", "type": ("int", "i32"), "rename": "id"}, {"ident": "f1", "type": ("int", "i32"), "rename": "ID"}, {"ident": "f2", "type": ("option", ("int", "i32")), "rename": "Id"}, {"ident": "f3", "type": ("string",), "rename": "x"}, {"ident": "f4", "type": ("string",), "rename": "X"}]})
         self.types.append({"name": "T%d" % (base + 10), "kind": "map", "cover_case": True, "fields": [{"ident": "f0", "type": ("int", "i32"), "rename": "key"}, {"ident": "f1", "type": ("int", "i32"), "rename": "KEY"}]})
 
+        # JSON names that are the Rust identifiers of the OTHER fields (the mapping is by declared name only)
+        self.types.append({"name": "T%d" % (base + 11), "kind": "map", "cover_swap": True, "fields": [{"ident": "f0", "type": ("int", "i32"), "rename": "f1"}, {"ident": "f1", "type": ("int", "i32"), "rename": "f0"}]})
+        self.types.append({"name": "T%d" % (base + 12), "kind": "struct", "cover_swap": True, "fields": [{"ident": "f0", "type": ("int", "i32"), "rename": "f1"}, {"ident": "f1", "type": ("int", "i32"), "rename": "f0"}, {"ident": "f2", "type": ("int", "i32"), "rename": None}]})
+
     def decl(self, t):
         if t["kind"] in ("struct", "map"):
             derive = "#[derive(FromJson, IntoJson, PartialEq, Debug, Clone)]" if t["kind"] == "struct" else "#[derive(PartialEq, Debug, Clone)]"
@@ -298,6 +302,9 @@ def gen_program(seed, index, nvalues, nliterals, wide=False):
                 forced.append((t, ("%s { f0: 7, f1: 4242, f2: None, f3: \"lower\".to_string(), f4: \"UPPER\".to_string() }" % t["name"], "Value::Object(vec![(\"id\".to_string(), Value::Number(7.0)), (\"ID\".to_string(), Value::Number(4242.0)), (\"Id\".to_string(), Value::Null), (\"x\".to_string(), Value::String(\"lower\".to_string())), (\"X\".to_string(), Value::String(\"UPPER\".to_string()))])")))
             else:
                 forced.append((t, ("%s { f0: 1, f1: 2 }" % t["name"], "Value::Object(vec![(\"key\".to_string(), Value::Number(1.0)), (\"KEY\".to_string(), Value::Number(2.0))])")))
+        if t.get("cover_swap"):
+            if len(t["fields"]) == 2:
+                forced.append((t, ("%s { f0: 1, f1: 2 }" % t["name"], "Value::Object(vec![(\"f1\".to_string(), Value::Number(1.0)), (\"f0\".to_string(), Value::Number(2.0))])")))
         if t.get("cover_none") and t["kind"] == "tuple":
             forced.append((t, ("%s(None, None)" % t["name"], "Value::Array(vec![Value::Null, Value::Null])")))
     for vi in range(nvalues + len(forced)):
